@@ -87,7 +87,15 @@ def gen_cases(rng, tier):
     COLLS = ["{(a: 1), (a: 2), (a: 3)}", "{|a, b| (1, 2), (2, 3), (3, 4), (4, 5)}", "[(a: 1), (a: 2), (a: 3), (a: 4)]", "{1, 2, 3, 4}",
              "{1: (a: 1), 2: (a: 2), 3: (a: 3)}", "\"abcd\"", "{(a: 1), (a: (b: 2)), (a: 3), (a: 4)}", "{|a| (1), ((b: 1)), (3)}"]
     FAILING = [".a.b", ".zz", ". + {}", ".a(1)", "//seq.concat(.)", ". < {}", "(.a.b: 1)", ".a -> .b", "cond . {(a: (b: x)): x}"]
-    for _ in range(260 if tier == "quick" else 5000):
+    # the core is enumerated: both ends of every sequence, one step outside and inside, with / without, right and wrong member
+    for sq, off, ln, attr, val in SEQS:
+        for i in (off - 1, off, off + ln - 1, off + ln):
+            for v in (val, "1"):
+                m = "(@: %s, %s: %s)" % (i, attr, v)
+                add("boundary", "%s with %s" % (sq, m))
+                add("boundary", "%s without %s" % (sq, m))
+                add("boundary", "%s &~ {%s}" % (sq, m))
+    for _ in range(200 if tier == "quick" else 5000):
         k = rng.random()
         if k < 0.6:
             sq, off, ln, attr, val = rng.choice(SEQS)
